@@ -768,6 +768,77 @@ Definition has_collision (fs : list file) : bool :=
   let u := dedup_files (closure_list fs) [] in
   pairs_collide u || existsb (fun f => dup_key (ext_keys f)) u.
 
+(* the same notion as propositions, for the theorems *)
+
+(* the names of a file lie strictly below its package and contain, with a name, every longer
+   prefix of it down to the package (walk.Descriptors yields the parents of every element) *)
+Definition names_closed (f : file) : Prop :=
+  forall n, In n (fsyms f) ->
+    exists r, r <> [] /\ n = fpkg f ++ r /\
+              forall r1 r2, r = r1 ++ r2 -> r1 <> [] -> In (fpkg f ++ r1) (fsyms f).
+
+(* every extension names an extendee that the file or one of its imports defines, together with
+   the package of that file (packageFor) *)
+Definition exts_resolved (f : file) : Prop :=
+  forall c m t, In (c, m, t) (fexts f) -> exists h, In h (closure f) /\ fpkg h = c /\ In m (fsyms h).
+
+Definition wf_universe (U : list file) : Prop :=
+  (forall f g, In f U -> In g U -> ffid f = ffid g -> f = g) /\
+  (forall f, In f U -> names_closed f /\ exts_resolved f).
+
+(* a boolean test that implies wf_universe (Proofs/SymbolsSpec.v wf_universe_b_sound); evaluated on
+   every generated case of the correspondence *)
+Fixpoint file_eqb (f g : file) : bool :=
+  match f, g with
+  | File i p d s x, File i' p' d' s' x' =>
+    N.eqb i i' && name_eqb p p'
+    && (fix deps_eqb (a b : list file) : bool :=
+          match a, b with
+          | [], [] => true
+          | u :: a', v :: b' => file_eqb u v && deps_eqb a' b'
+          | _, _ => false
+          end) d d'
+    && (fix names_eqb (a b : list name) : bool :=
+          match a, b with
+          | [], [] => true
+          | u :: a', v :: b' => name_eqb u v && names_eqb a' b'
+          | _, _ => false
+          end) s s'
+    && (fix exts_eqb (a b : list (name * name * Z)) : bool :=
+          match a, b with
+          | [], [] => true
+          | (c, m, t) :: a', (c', m', t') :: b' =>
+            name_eqb c c' && name_eqb m m' && Z.eqb t t' && exts_eqb a' b'
+          | _, _ => false
+          end) x x'
+  end.
+
+Definition names_closed_b (f : file) : bool :=
+  forallb (fun n =>
+             proper_prefix (fpkg f) n
+             && forallb (fun q => negb (Nat.ltb (length (fpkg f)) (length q)) || mem_name q (fsyms f)) (prefixes n))
+          (fsyms f).
+
+Definition exts_resolved_b (f : file) : bool :=
+  forallb (fun x => existsb (fun h => name_eqb (fpkg h) (fst (fst x)) && mem_name (snd (fst x)) (fsyms h)) (closure f))
+          (fexts f).
+
+Definition wf_universe_b (U : list file) : bool :=
+  forallb (fun f => forallb (fun g => negb (N.eqb (ffid f) (ffid g)) || file_eqb f g) U) U
+  && forallb (fun f => names_closed_b f && exts_resolved_b f) U.
+
+Definition share_name (f g : file) : Prop :=
+  exists n, In n (fsyms f) /\ (In n (fsyms g) \/ In n (prefixes (fpkg g))).
+Definition share_ext (f g : file) : Prop :=
+  exists m t, In (m, t) (ext_keys f) /\ In (m, t) (ext_keys g).
+
+(* the set of files contains a collision: two different files share a name, a name of one is a
+   package (prefix) of the other, they share an (extendee, tag), or one file has an (extendee,
+   tag) twice *)
+Definition collides (U : list file) : Prop :=
+  (exists f g, In f U /\ In g U /\ f <> g /\ (share_name f g \/ share_ext f g)) \/
+  (exists f, In f U /\ ~ NoDup (ext_keys f)).
+
 Fixpoint any_err (l : list ans) : bool :=
   match l with
   | [] => false
@@ -859,7 +930,7 @@ Definition sym_chk_with (imp : file -> table -> table * res) (opp : op -> prog a
   match c with
   | CSeq ops obs => steps_ok imp opp [] ops obs
   | CPart fs anyerr looks elooks =>
-    Bool.eqb (has_collision fs) anyerr
+    wf_universe_b (closure_list fs) && Bool.eqb (has_collision fs) anyerr
     && (anyerr || let '(T, _) := run_ops_with imp [] (map OImport fs) in looks_ok T looks elooks)
   end.
 Definition sym_chk := sym_chk_with import op_prog.
